@@ -106,10 +106,52 @@ where
     rep.stage(stage, space, total, t0);
 }
 
+/// Sweep of TCP conversations: item i -> (path, list of segment payloads), all on one fresh
+/// validated flow; every segment judged by the reference stream model.
+pub fn sweep_conv<G>(rep: &mut Report, env: &AppEnv, stage: &str, space: &str, total: u64, gen: G)
+where
+    G: Fn(u64) -> (Path, Vec<Vec<u8>>) + Sync,
+{
+    let t0 = std::time::Instant::now();
+    let opts = RunOpts::new(stage).stateful().chunk(128).no_monitor();
+    engine::run(
+        &env.cfg,
+        total,
+        &opts,
+        |i| {
+            let (p, segs) = gen(i);
+            let (a, b) = PORT_PAIRS[p.ports];
+            let f = flow(p.v6, a, b);
+            let c = env.cookies[&key_of(&f)].wrapping_add(1);
+            let mut off = 0u32;
+            let mut cmds = Vec::new();
+            for sg in segs {
+                cmds.push(Cmd::Frame(f.tcp(1000u32.wrapping_add(off), c, F_PSH | F_ACK, &sg)));
+                off = off.wrapping_add(sg.len() as u32);
+            }
+            cmds
+        },
+        |it: &Item, sk: &mut Sink| {
+            let model = Model::new();
+            engine::judge_item(&env.cfg, &model, &env.cookies, it, it.cmds.len(), stage, sk);
+            sk.count("frames", it.cmds.len() as u64 - 1);
+            for (k, o) in it.outs.iter().enumerate() {
+                if o.panicked {
+                    sk.violation(crate::engine::Violation { prop: "C01".into(), key: format!("panic:{}", engine::panic_site(&o.text)), what: format!("reply() panicked: {}", o.text), cfg: env.cfg.clone(), cmds: it.cmds[..=k].to_vec(), idx: it.idx, stage: stage.to_string() });
+                }
+            }
+        },
+        &mut rep.sink,
+    );
+    rep.stage(stage, space, total, t0);
+}
+
 fn envs(rep: &mut Report) -> Vec<AppEnv> {
     let mut v = Vec::new();
-    let mut cfgs = vec![cfg_plain(), cfg_lists()];
+    // lists + every log-macro argument evaluated (behaviour must not depend on verbosity)
+    let mut cfgs = vec![cfg_plain(), cfg_lists().with_log(crate::driver::LoggerKind::None, crate::driver::Level::Trace)];
     if rep.tier == "thorough" {
+        cfgs.push(cfg_lists());
         // the same sweeps on the overflow-checked build with every log argument evaluated
         cfgs.push(cfg_lists().with_profile(crate::driver::Profile::Dev).with_log(crate::driver::LoggerKind::None, crate::driver::Level::Trace));
     }
@@ -237,7 +279,7 @@ pub fn run_c13(rep: &mut Report, thorough: bool) {
     let reqs = http_requests();
     let core = http_core();
     for env in envs(rep) {
-        let tag = if env.cfg.profile == crate::driver::Profile::Dev { "dev" } else if env.cfg.self_ips.is_empty() { "plain" } else { "lists" };
+        let tag = if env.cfg.profile == crate::driver::Profile::Dev { "dev" } else if env.cfg.self_ips.is_empty() { "plain" } else if env.cfg.level == crate::driver::Level::Trace { "lists-trace" } else { "lists" };
         let paths = all_paths();
         let np: u64 = if thorough { paths.len() as u64 } else { 4 };
         let sel = |k: u64| if thorough { paths[k as usize] } else { [Path { tcp: false, v6: false, ports: 0 }, Path { tcp: true, v6: true, ports: 1 }, Path { tcp: false, v6: true, ports: 1 }, Path { tcp: true, v6: false, ports: 0 }][k as usize] };
@@ -245,10 +287,19 @@ pub fn run_c13(rep: &mut Report, thorough: bool) {
         let n = reqs.len() as u64 / stride;
         sweep_app(rep, &env, &format!("http-grammar-{}", tag), "request grammar product x transport/IP/port paths", n * np, |i| (sel(i % np), reqs[((i / np) * stride + (i % stride)) as usize % reqs.len()].clone()));
         // request-target length: every length 1..1400 (all fit one segment / datagram)
-        sweep_app(rep, &env, &format!("http-target-length-{}", tag), "GET with a request-target of every length 1..1400 x {UDP, TCP}", 1400 * 2, |i| {
+        sweep_app(rep, &env, &format!("http-target-length-{}", tag), "GET with a request-target of every length 1..1400 (fill: ASCII, 0xff, 2-byte UTF-8 at both alignments) x {UDP, TCP}", 1400 * 2 * 4, |i| {
+            let fillk = (i / 2800) as usize;
+            let i = i % 2800;
             let n = (i / 2 + 1) as usize;
             let mut r = b"GET /".to_vec();
-            r.extend(std::iter::repeat(b'y').take(n - 1));
+            let mut body: Vec<u8> = match fillk {
+                0 => vec![b'y'; n],
+                1 => vec![0xff; n],
+                2 => [0xc3u8, 0xa9].iter().cycle().take(n).cloned().collect(),
+                _ => [b'a'].iter().chain([0xc3u8, 0xa9].iter().cycle()).take(n).cloned().collect(),
+            };
+            body.truncate(n - 1);
+            r.extend(body);
             r.extend_from_slice(b" HTTP/1.1\r\nHost: x\r\n\r\n");
             (if i % 2 == 0 { Path { tcp: false, v6: false, ports: 0 } } else { Path { tcp: true, v6: true, ports: 1 } }, r)
         });
@@ -308,7 +359,7 @@ pub fn run_c14(rep: &mut Report, thorough: bool) {
     let p4 = Path { tcp: false, v6: false, ports: 0 };
     let p6 = Path { tcp: false, v6: true, ports: 1 };
     for env in envs(rep) {
-        let tag = if env.cfg.profile == crate::driver::Profile::Dev { "dev" } else if env.cfg.self_ips.is_empty() { "plain" } else { "lists" };
+        let tag = if env.cfg.profile == crate::driver::Profile::Dev { "dev" } else if env.cfg.self_ips.is_empty() { "plain" } else if env.cfg.level == crate::driver::Level::Trace { "lists-trace" } else { "lists" };
         let q1 = vec![(dns_labels("www.example.com"), 1u16, 1u16)];
         sweep_app(rep, &env, &format!("dns-id-{}", tag), "id 0..65535", 65536, |i| (p4, appdns::build_query(i as u16, 0x0100, &q1)));
         sweep_app(rep, &env, &format!("dns-flags-{}", tag), "flag word 0..65535 x {1,2} questions", 65536 * 2, |i| {
@@ -391,7 +442,7 @@ pub fn run_c15(rep: &mut Report, thorough: bool) {
     let pt6 = Path { tcp: true, v6: true, ports: 0 };
     let paths = [pu4, pu6, pt4, pt6];
     for env in envs(rep) {
-        let tag = if env.cfg.profile == crate::driver::Profile::Dev { "dev" } else if env.cfg.self_ips.is_empty() { "plain" } else { "lists" };
+        let tag = if env.cfg.profile == crate::driver::Profile::Dev { "dev" } else if env.cfg.self_ips.is_empty() { "plain" } else if env.cfg.level == crate::driver::Level::Trace { "lists-trace" } else { "lists" };
         // message type word
         sweep_app(rep, &env, &format!("stun-type-{}", tag), "message type 0..65535 x {magic 20-byte, classic 20-byte, classic 28-byte}", 65536 * 3, |i| {
             let ty = (i % 65536) as u16;
@@ -554,7 +605,7 @@ pub fn run_c16(rep: &mut Report, thorough: bool) {
         }
     };
     for env in envs(rep) {
-        let tag = if env.cfg.profile == crate::driver::Profile::Dev { "dev" } else if env.cfg.self_ips.is_empty() { "plain" } else { "lists" };
+        let tag = if env.cfg.profile == crate::driver::Profile::Dev { "dev" } else if env.cfg.self_ips.is_empty() { "plain" } else if env.cfg.level == crate::driver::Level::Trace { "lists-trace" } else { "lists" };
         let np: u64 = if thorough { 4 } else { 2 };
         let dims = [np, 256, vers.len() as u64, 256];
         sweep_app(rep, &env, &format!("rpc-prog-vers-proc-{}", tag), "paths x 256 programs x 8 versions x 256 procedures", product(&dims), |i| {
@@ -723,7 +774,7 @@ pub fn run_c17(rep: &mut Report, thorough: bool) {
     let s1 = sequences(d1.len(), 4);
     let s2 = sequences(d2.len(), 4);
     for env in envs(rep) {
-        let tag = if env.cfg.profile == crate::driver::Profile::Dev { "dev" } else if env.cfg.self_ips.is_empty() { "plain" } else { "lists" };
+        let tag = if env.cfg.profile == crate::driver::Profile::Dev { "dev" } else if env.cfg.self_ips.is_empty() { "plain" } else if env.cfg.level == crate::driver::Level::Trace { "lists-trace" } else { "lists" };
         // SMB1 ids
         let dims = [2u64, 2, 5, 65536];
         sweep_app(rep, &env, &format!("smb1-ids-{}", tag), "{negotiate, session setup} x {PID-high, PID-low, TID, UID, MID} x all 65536 values x {UDP, TCP}", product(&dims), |i| {
@@ -808,6 +859,36 @@ pub fn run_c17(rep: &mut Report, thorough: bool) {
             g[(i / 256) as usize] = i as u8;
             (pu, appsmb::smb2_negotiate(&Smb2Hdr::new(0), &[0x0302], &g))
         });
+        // conversations on one TCP connection: negotiate, then session setup (and variants of the
+        // second message: reply flag, other commands, the other SMB generation's magic)
+        {
+            let n1 = appsmb::smb1_negotiate(&Smb1Hdr::new(0x72), &["NT LM 0.12"]);
+            let n2 = appsmb::smb2_negotiate(&Smb2Hdr::new(0), &[0x0202, 0x0311], &[5; 16]);
+            let mut seconds: Vec<Vec<u8>> = Vec::new();
+            for cmd in [0x72u8, 0x73, 0x75, 0x00] {
+                for fl in [0x18u8, 0x98] {
+                    let mut h = Smb1Hdr::new(cmd);
+                    h.flags = fl;
+                    h.mid = 0x4242;
+                    seconds.push(if cmd == 0x73 { appsmb::smb1_session_setup(&h, &[1, 2, 3, 4, 5, 6]) } else { appsmb::smb1_negotiate(&h, &["X", "NT LM 0.12"]) });
+                }
+            }
+            for cmd in [0u16, 1, 2, 5] {
+                for fl in [0u32, 1] {
+                    let mut h = Smb2Hdr::new(cmd);
+                    h.flags = fl;
+                    h.message_id = 0x1122334455667788;
+                    seconds.push(if cmd == 1 { appsmb::smb2_session_setup(&h, &[9; 12]) } else { appsmb::smb2_negotiate(&h, &[0x0300, 0x0210], &[6; 16]) });
+                }
+            }
+            let ns = seconds.len() as u64;
+            sweep_conv(rep, &env, &format!("smb-conversations-{}", tag), "[negotiate (SMB1 or SMB2)] then a second message out of 16 (both generations x commands x reply flag) then a third = session setup, x {v4,v6}", 2 * ns * 2, |i| {
+                let d = unrank(i, &[2, 2, ns]);
+                let first = if d[0] == 0 { n1.clone() } else { n2.clone() };
+                let third = if d[0] == 0 { appsmb::smb1_session_setup(&Smb1Hdr::new(0x73), &[7; 8]) } else { appsmb::smb2_session_setup(&Smb2Hdr::new(1), &[7; 8]) };
+                (Path { tcp: true, v6: d[1] == 1, ports: d[1] as usize }, vec![first, seconds[d[2] as usize].clone(), third])
+            });
+        }
         // the selected dialect is a function of WHICH dialects are offered and in which order
         // they first appear: repeating an entry must not change the dialect selected
         // (differential: list L vs L with repetitions removed)
@@ -943,7 +1024,7 @@ pub fn run_c18(rep: &mut Report, thorough: bool) {
     let pt = Path { tcp: true, v6: true, ports: 1 };
     let banners: Vec<&[u8]> = vec![b"SSH-2.0-SOFTWARE COMMENT\r\n", b"SSH-1.99-SOFTWARE COMMENT\r\n", b"SSH-2.0-SOFT WARE COMMENT\r\n", b"SSH-2.0-SOFTWARE  COMMENT\r\n", b"SSH-2.0-SOFT\rWARE COM\rMENT\r\n", b"SSH-2.0-SOFTWARE\r\n", b"SSH-2.0-SOFTWARE COMMENT\n", b"SSH-2.0-SOFTWARE COMMENT\r", b"SSH-1.99-S C\r\n", b"SSH-2.0.1-a\r\n", b"SSH-2.0-a\r\r\n"];
     for env in envs(rep) {
-        let tag = if env.cfg.profile == crate::driver::Profile::Dev { "dev" } else if env.cfg.self_ips.is_empty() { "plain" } else { "lists" };
+        let tag = if env.cfg.profile == crate::driver::Profile::Dev { "dev" } else if env.cfg.self_ips.is_empty() { "plain" } else if env.cfg.level == crate::driver::Level::Trace { "lists-trace" } else { "lists" };
         let dims = [2u64, 2, 2, total_strings];
         sweep_app(rep, &env, &format!("ssh-strings-{}", tag), "prefix {SSH-2.0, SSH-1.99} x {bare, + '-x CR LF'} x {UDP, TCP} x all strings of length <= L over 9 symbols", product(&dims), |i| {
             let d = unrank(i, &dims);
@@ -973,6 +1054,21 @@ pub fn run_c18(rep: &mut Report, thorough: bool) {
             };
             (if d[2] == 0 { pu } else { pt }, m)
         });
+        // later segments on a connection identified as SSH are identification strings of their own
+        {
+            let firsts: [&[u8]; 2] = [b"SSH-2.0-first\r\n", b"SSH-1.99-first c\r\n"];
+            let b0: &[u8] = b"SSH-2.0-OpenSSH_8.9 x\r\n";
+            let nf = fault_count(b0);
+            sweep_conv(rep, &env, &format!("ssh-second-segment-{}", tag), "[valid identification] then a second segment: every single-byte fault of a banner, plus well-formed ones, x 2 first banners x {v4,v6}", (nf + 4) * 2 * 2, |i| {
+                let d = unrank(i, &[2, 2, nf + 4]);
+                let second: Vec<u8> = if d[2] < nf {
+                    fault(b0, d[2])
+                } else {
+                    [b"SSH-2.0-second\r\n".to_vec(), b"SSH-1.99-z\r\r\n".to_vec(), b"ssh-2.0-x\r\n".to_vec(), b"XXXX2.0-x\r\n".to_vec()][(d[2] - nf) as usize].clone()
+                };
+                (Path { tcp: true, v6: d[1] == 1, ports: d[1] as usize }, vec![firsts[d[0] as usize].to_vec(), second])
+            });
+        }
         let gt = 1 + 9 + 81 + 729;
         sweep_app(rep, &env, &format!("ghost-tails-{}", tag), "Gh0st magic + every tail of length <= 3 over 9 symbols, the captured request, tails of 1/2/4 KB, x {UDP v4, TCP v6, UDP v6, TCP v4}", (gt + 4) * 4, |i| {
             let k = i / 4;
